@@ -93,6 +93,9 @@ class Run:
         end = c.get('end', 'fin')
 
         def finish(sock):
+            if sock is cli and c.get('keep_data_open'):
+                # the peer stays up and keeps the data connection open although the control handshake has failed
+                s.sleep(5000.0)
             if end == 'rst':
                 set_linger(sock, True, 0)
             if c.get('pause'):
@@ -107,7 +110,7 @@ class Run:
             return
         cli.sendall(m1)
         if c.get('ctrl') == 'refused':
-            s.sleep(1.0)
+            s.sleep(5000.0 if c.get('keep_data_open') else 1.0)
             cli.close()
             return
         try:
@@ -252,6 +255,11 @@ def plan(ctx):
                 for end in ('fin', 'rst'):
                     cases.append(mk_case(ctx, kind, 'scripted', len(cases), stage=stage, cut=k, end=end, tag='scripted'))
         cases.append(mk_case(ctx, kind, 'scripted', len(cases), ctrl='refused', tag='scripted'))
+        # the same control-channel failures with a peer that keeps the *data* connection open for a long time
+        cases.append(mk_case(ctx, kind, 'scripted', len(cases), ctrl='refused', keep_data_open=True, tag='scripted'))
+        for k in (0, 1, 3, 4, 5, 20, 44):
+            for end in ('fin', 'rst'):
+                cases.append(mk_case(ctx, kind, 'scripted', len(cases), stage=2, cut=k, end=end, keep_data_open=True, tag='scripted'))
         for mode in ('unknown-ctx', 'connect-refused'):
             cases.append(mk_case(ctx, kind, mode, len(cases), tag='modes'))
     for kind in ('process', 'pprocess', 'remote', 'premote'):
